@@ -792,8 +792,14 @@ var opaqueSeq int
 
 func (g *e1func) opaqueLocals(t *Term) *Term {
 	if g.opaqueID == 0 {
-		opaqueSeq++
-		g.opaqueID = opaqueSeq
+		// named after the call site, not after the activation: the locals of a helper interpreted once per loop iteration
+		// become the same opaque value each time, so the state set of the loop converges
+		if g.callPos.IsValid() {
+			g.opaqueID = int(g.callPos)
+		} else {
+			opaqueSeq++
+			g.opaqueID = opaqueSeq
+		}
 	}
 	var rec func(t *Term) *Term
 	rec = func(t *Term) *Term {
@@ -900,8 +906,13 @@ func (e *e1) isRelevant(fc *Term) bool {
 	if fc.S == "eq" && e.valueEq[k] {
 		return true
 	}
-	if fc.S == "eq" && len(fc.A) == 2 && fc.A[0].K == "sel" && len(fc.A[0].A) == 1 && fc.A[0].A[0].K == "var" {
-		return true // a field store through a value the caller handed in (builder helpers filling in a struct): part of the value the caller goes on to use
+	if fc.S == "eq" && len(fc.A) == 2 && fc.A[0].K == "sel" && len(fc.A[0].A) == 1 && (fc.A[0].A[0].K == "var" || fc.A[0].A[0].K == "call" || fc.A[0].A[0].K == "res") {
+		return true // a field store through a value the caller handed in, or into the value the helper returns (builder helpers filling in a struct): part of the value the caller goes on to use
+	}
+	if fc.S == "def" && len(fc.A) == 2 && (fc.A[0].K == "call" || fc.A[0].K == "res") {
+		if v := fc.A[1]; (v.K == "call" && v.S == "new") || (v.K == "op" && v.S == "&" && len(v.A) == 1 && v.A[0].K == "lit") || v.K == "lit" {
+			return true // the returned value is a fresh allocation of that type
+		}
 	}
 	if r, ok := e.relCache[k]; ok {
 		return r
